@@ -649,7 +649,7 @@ static int unit_begin(void) {
   r = uv_loop_init(&L);
   if (r) return r;
   loop_ok = 1;
-  uv_timer_init(&L, &wd); uv_timer_start(&wd, wd_cb, 5000, 0); uv_unref((uv_handle_t*) &wd); wd_on = 1;
+  uv_timer_init(&L, &wd); uv_timer_start(&wd, wd_cb, 1500, 0); uv_unref((uv_handle_t*) &wd); wd_on = 1;
   return 0;
 }
 
@@ -813,7 +813,7 @@ static void su_loop_init(void) {
   else { z.m = (int) fi_live - m0; z.f = nfds() - f0; }
   unit_report("loop_init", rc, a, z, "");
   if (rc == 0) {
-    uv_timer_init(&L, &wd); uv_timer_start(&wd, wd_cb, 5000, 0); uv_unref((uv_handle_t*) &wd); wd_on = 1;
+    uv_timer_init(&L, &wd); uv_timer_start(&wd, wd_cb, 1500, 0); uv_unref((uv_handle_t*) &wd); wd_on = 1;
     loop_end();
   }
 }
